@@ -1,5 +1,5 @@
 #!/venv/bin/python
-"""Failing inputs of the genuine defects F15-F26 (DESIGN.md section 6), as runnable reproducers.
+"""Failing inputs of the genuine defects F15-F27 (DESIGN.md section 6), as runnable reproducers.
 
 Not a registered check (the checks are static): this script *runs* flox.  On the original snapshot (80f0cb3) every case fails as described;
 on the repaired tree every case prints OK.  Usage:  cd <a checkout of /repo> && /venv/bin/python /verif/defects/repro.py
@@ -92,6 +92,9 @@ def f26():
 
 
 case("F26 xarray_reduce func='first' along a non-grouper dim", f26, refusal_ok=True)
+
+# F27
+case("F27 chunked nancumsum of int8", lambda: np.asarray(groupby_scan(da.from_array(np.array([100] * 6, dtype=np.int8), chunks=2), np.zeros(6, dtype=int), func="nancumsum")).tolist(), lambda r: r == [100, 200, 300, 400, 500, 600])
 
 bad = 0
 for name, verdict in results:
